@@ -404,6 +404,9 @@ func (w *world) runBlock(txs [][]byte, msgs []*evmtypes.MsgEthereumTx, specs []c
 				}
 			}
 			w.side.Count("delivered:" + specs[i].name + ":" + oc)
+			if oc == "ok" && len(out[i].Ret) == 32 && len(specs[i].name) > 4 && specs[i].name[:4] == "fwd>" {
+				w.side.Count(fmt.Sprintf("delivered-inner-call-succeeded:%s=%v", specs[i].name, out[i].Ret[31] == 1))
+			}
 		}
 		if tr.Code != res2.TxResults[i].Code || tr.GasUsed != res2.TxResults[i].GasUsed || !bytes.Equal(tr.Data, res2.TxResults[i].Data) {
 			w.side.Hit("C08/query/twin-chain-diverged/tx-result", fmt.Sprintf("block %d tx %d: result differs from the chain that saw no queries", rec.height, i), nil)
